@@ -59,6 +59,16 @@ theorem read_write_roundtrip :
       (write A.dna A.amino g cm).bind (read A.dna A.amino g1) =
         some { translTable := -1, desc := "", basic := g.basic, isInit := g.isInit } := Facts.read_write_roundtrip
 
+/-- genetic-code objects over the RNA alphabet behave like those over DNA: the RNA alphabet satisfies the hypotheses of the
+    general theorems, its degeneracy rows are the IUPAC sets (U for T), "only AUG" marks the same codon, and the NCBI
+    column ↦ codon map used by Read/Write is the same (T is read as U) -/
+theorem rna_objects_ok :
+    NtOK A.rna ∧ A.rna.Kp = 18 ∧
+    (∀ a, a < 18 → flags (A.rna.degen.getD a []) =
+      (Iupac.denotes .rna ((Iupac.symbols .rna).getD a ' ')).map fun ch => (Iupac.canonical .rna).idxOf ch) ∧
+    (∀ g, (setInitiatorOnlyAUG A.rna g).isInit = (setInitiatorOnlyAUG A.dna g).isInit) ∧
+    (∀ x, x < 64 → ncbiCodon A.rna x = ncbiCodon A.dna x) := Facts.rna_objects_ok
+
 /-! ## translation of a possibly degenerate codon: ANY table, ANY degeneracy matrix, any triplet of codes (general proof) -/
 
 /-- the model of the triple loop of `esl_gencode_GetTranslation` equals the specification -/
